@@ -1,10 +1,10 @@
 import Driver.SchemaIO
 import RadixModel.Model.SchemaCompare
 /-! Line-protocol driver of the schema comparison model, area c23.
-ops:  reset | base <tokens> | new <tokens>
+ops:  reset | base <sbor-hex (runner only)> <tokens> | new <sbor-hex> <tokens>
     | cmp <9 settings> <nroots> (<btag> <bn> <ctag> <cn>)^nroots
     | cmpn <9 settings> <nb> (<name> <tag> <n>)^nb <nc> (<name> <tag> <n>)^nc
-    | val b|n <depth> <tid-tag> <tid-n> <payload-hex>  -/
+    | both <depth> <base tid> <new tid> <payload-hex>      (outcome under base | outcome under new)  -/
 open Radix Radix.Proto Radix.Sbor Radix.Schema Radix.SchemaIO
 
 structure St where
@@ -67,18 +67,18 @@ def cmpnLine (s : St) (ws : List String) : String :=
 def stepLine (s : St) (line : String) : St × String :=
   match words line with
   | ["reset"] => (⟨none, none⟩, "ok")
-  | "base" :: ws =>
+  | "base" :: _hex :: ws =>
     (match parseSchema ws with
      | some S => ({ s with base := some S }, "ok")
      | none => (s, "bad-op"))
-  | "new" :: ws =>
+  | "new" :: _hex :: ws =>
     (match parseSchema ws with
      | some S => ({ s with new := some S }, "ok")
      | none => (s, "bad-op"))
   | "cmp" :: ws => (s, cmpLine s ws)
   | "cmpn" :: ws => (s, cmpnLine s ws)
-  | ["val", "b", depth, tag, n, payload] => (s, valLine s.base depth tag n payload)
-  | ["val", "n", depth, tag, n, payload] => (s, valLine s.new depth tag n payload)
+  | ["both", depth, bt, bn, ct, cn, payload] =>
+    (s, valLine s.base depth bt bn payload ++ " | " ++ valLine s.new depth ct cn payload)
   | _ => (s, "bad-op")
 
 def main : IO Unit := run stepLine ⟨none, none⟩
